@@ -170,6 +170,20 @@ func intBounds(conds []*sym.Term, x *sym.Term) (lo, hi *big.Int) {
 					lo = big.NewInt(v)
 				}
 			}
+			// the same bound spelled as a guard clause: not(k <= X) is X < k
+			if v, ok := a.Int64(); ok && impliesLit(conds, sym.Not(l)) {
+				if hi == nil || big.NewInt(v).Cmp(hi) < 0 {
+					hi = big.NewInt(v)
+				}
+			}
+		}
+		// not(X < k) is k <= X
+		if l.Name == "<" && sym.Eq(a, x) {
+			if v, ok := b.Int64(); ok && impliesLit(conds, sym.Not(l)) {
+				if lo == nil || big.NewInt(v).Cmp(lo) > 0 {
+					lo = big.NewInt(v)
+				}
+			}
 		}
 	}
 	return
